@@ -596,7 +596,7 @@ func c07Corpus(c *Ctx, r *common.Rng, run int, p *Program) *Scenario {
 	ex := c07Extra{}
 	vdisk := Disk{}
 	var vargv []string
-	kind := r.Intn(4)
+	kind := r.Intn(5)
 	nfo := 0
 	for _, f := range files {
 		if strings.HasSuffix(f.path, ".fo") {
@@ -607,6 +607,44 @@ func c07Corpus(c *Ctx, r *common.Rng, run int, p *Program) *Scenario {
 		kind = 3
 	}
 	switch kind {
+	case 4: // insert a file of generated, unrelated definitions somewhere into the invocation
+		ex.Kind = "insert-noise-file"
+		o := swarmOpts(r)
+		o.Items = r.Range(3, 14)
+		o.Collide = false
+		o.Shadow = false
+		g := genItems(r, o, "Zq")
+		{ // the noise must not define main (the repository programs have their own)
+			var kept []GItem
+			for _, it := range g.items {
+				if it.Name != "main" {
+					kept = append(kept, it)
+				}
+			}
+			g.items = kept
+		}
+		pos := 1 + r.Intn(len(files)) // never in front of the .foi
+		dir := filepath.Dir(files[len(files)-1].path)
+		for i, f := range files {
+			if i == pos {
+				vdisk.Put(filepath.Join(dir, "zq_noise.fo"), []byte(g.text()), "generated noise")
+				vargv = append(vargv, filepath.Join(dir, "zq_noise.fo"))
+			}
+			vdisk.Put(f.path, []byte(joinItems(f.items)), "corpus")
+			vargv = append(vargv, f.path)
+		}
+		if pos >= len(files) {
+			vdisk.Put(filepath.Join(dir, "zq_noise.fo"), []byte(g.text()), "generated noise")
+			vargv = append(vargv, filepath.Join(dir, "zq_noise.fo"))
+		}
+		// reference: the inserted definitions on their own. If fc rejects them alone (one generated definition in a
+		// thousand exceeds fc's per-definition limits) the variant is legitimately rejected too; if it accepts them
+		// alone and the base alone, it must accept them together.
+		rd := Disk{}
+		rd.Put("pkg/pkg_all.foi", pkgAllFoi, "corpus")
+		rd.Put("r/zq_noise.fo", []byte(g.text()), "generated noise")
+		ex.RefArgv = []string{"pkg/pkg_all.foi", "r/zq_noise.fo"}
+		ex.RefDisk = &rd
 	case 0: // merge all .fo files into one
 		ex.Kind = "merge"
 		var headers, body []Item
@@ -957,6 +995,14 @@ func checkC07(tier string) {
 		base.Extra = nil
 		r0 := c.sim(c.B.FcVerif, base)
 		r1 := c.sim(c.B.FcVerif, vs)
+		var rr *Result
+		if ex.RefDisk != nil {
+			ref := sc.Clone()
+			ref.Extra = nil
+			ref.Argv = ex.RefArgv
+			ref.Disk = ex.RefDisk.Clone()
+			rr = c.sim(c.B.FcVerif, ref)
+		}
 		c.count("corpus_variant_kind:"+ex.Kind, 1)
 		if c.markDistinct("pair:" + base.Hash() + "|" + vs.Hash()) {
 			c.count("distinct_nontrivial", 1)
@@ -965,7 +1011,7 @@ func checkC07(tier string) {
 		if i < 4 {
 			c.addSample(map[string]any{"base": p.Name, "variant_argv": ex.Argv, "kind": ex.Kind, "base_exit": r0.Exit, "variant_exit": r1.Exit, "decls_base": countDecls(r0)}, 12)
 		}
-		return outcome{sc, c07Judge(sc, ex, r0, nil, r1)}
+		return outcome{sc, c07Judge(sc, ex, r0, rr, r1)}
 	}, nil)
 
 	c.phase("reporting")
